@@ -38,6 +38,8 @@ class ReconnH(explore.Harness):
         self.deviations = 0
         self.idles = 0
         self.env_marks = []
+        self.model_excluded = set()
+        self.round_open = False
         self.viol = []
         self.callers = []  # dict(task, t0, kind)
         self.trigger_times = []
@@ -164,6 +166,11 @@ class ReconnH(explore.Harness):
             att = self._pending_att()[0]
             conn = self.net.accept(att, parts[1])
             self._wire_fault(conn, parts[2])
+            self.round_open = False
+            if parts[2] == "wrong-id":
+                self.model_excluded.add(parts[1])
+                if self.model_excluded >= set(self.cur_hosts):
+                    self.model_excluded.clear()  # every advertised address excluded: the next round must try the full list
         elif k == "timer":
             self.loop.fire_next_timer()
         elif k == "idle":
@@ -171,7 +178,10 @@ class ReconnH(explore.Harness):
             self.loop._vtime += 50.0
         elif k in ("zc-same", "zc-changed"):
             if k == "zc-changed":
-                self.cur_hosts = [self.alt_hosts.pop(0)] + self.cur_hosts[1:] if self.alt_hosts else self.cur_hosts
+                if self.alt_hosts:
+                    self.cur_hosts = [self.alt_hosts.pop(0)] + self.cur_hosts[1:]
+                    self.model_excluded.clear()  # a changed address set makes every advertised address eligible again
+                    self.hosts_changed_at = len(self.net.attempts)
             self.trigger_times.append((now, k))
             self.pairing._async_description_update(mk_description(self.cur_hosts, s=len(self.trigger_times) + 1))
         elif k in ("ensure", "ensure-t3"):
@@ -236,6 +246,21 @@ class ReconnH(explore.Harness):
         if self.closed_at is not None and all(t.done() for t in self.close_tasks) and self.close_tasks and self._no_trigger_since(self.closed_at):
             if opened:
                 self.viol.append(("c11:connection-open-after-close", {"open": [c.cid for c in opened], "t": now}))
+        # C10: which addresses a round starts with (no advertised address is excluded for good)
+        for idx, a in enumerate(self.net.attempts):
+            if a.get("elig_checked"):
+                continue
+            a["elig_checked"] = True
+            prev = self.net.attempts[idx - 1] if idx else None
+            first_of_round = prev is None or prev["outcome"] is None or (prev["outcome"] and prev["outcome"][0] == "ok") or (prev["end"] is not None and a["t"] > prev["end"] + 1e-9) \
+                or any(abs(t - a["t"]) < 1e-9 for t, _ in self.trigger_times + self.env_marks)
+            if not first_of_round or not self.p.get("with_description", True):
+                continue
+            if set(a["hosts"]) <= set(self.cur_hosts):  # (an attempt already in flight when the addresses changed is not judged)
+                eligible = [h for h in self.cur_hosts if h not in self.model_excluded] or list(self.cur_hosts)
+                missing = set(eligible) - set(a["hosts"])
+                if missing and not (prev is not None and prev["end"] is not None and abs(a["t"] - prev["end"]) < 1e-9 and prev["outcome"] and prev["outcome"][0] != "ok"):
+                    self.viol.append(("c10:eligible-address-not-tried-at-start-of-round", {"attempt_hosts": a["hosts"], "eligible": eligible, "excluded_model": sorted(self.model_excluded), "t": a["t"]}))
         # authentication failure observed?
         if self.auth_failed_at is None:
             from aiohomekit.exceptions import AuthenticationError
